@@ -153,6 +153,7 @@ CARD_FORMS = [
     ('{id} 5 -1.0{g} imp:n=1', True),     # needs the geometry to start with (
     ('  {id}   7  -8.96   {g}   IMP:N=2', False),
     ('{id} 0 {g}imp:n=1 u=3', 'close'),   # options right after a closing )
+    ('{id} 0{g} imp:n=1', True),          # void: ( right after the material 0
 ]
 
 REF_CELLS = {9: ('&', ('s', -7), ('s', 8)),
@@ -322,17 +323,26 @@ def _enum_worker(args):
         for si in range(n_spell):
             sp = SPELLINGS[(idx + si) % len(SPELLINGS)]
             form = (idx + 2 * si) % len(CARD_FORMS)
-            prob, card, _n = judge(tree, sp, form)
-            evals += 1
-            ops = repr(tree)
-            if ('&' in ops and '|' in ops) or '~' in ops or "'c'" in ops:
-                nontriv += 1
-            if len(samples) < 2 and idx % 997 == 0:
-                samples.append(card)
-            if prob:
-                bad.append((prob[0], prob[1], card,
-                            {'tree': tree, 'spelling': sp.as_dict(),
-                             'form': form}))
+            forms = [form]
+            # the card forms that glue the expression to its neighbours are
+            # tried whenever the spelled expression allows them
+            txt = render(tree, sp)
+            if si == 0 and txt.startswith('('):
+                forms += [f for f in (4, 7) if f != form]
+            if si == 0 and txt.endswith(')'):
+                forms += [f for f in (6,) if f != form]
+            for form in forms:
+                prob, card, _n = judge(tree, sp, form)
+                evals += 1
+                ops = repr(tree)
+                if ('&' in ops and '|' in ops) or '~' in ops or "'c'" in ops:
+                    nontriv += 1
+                if len(samples) < 2 and idx % 997 == 0:
+                    samples.append(card)
+                if prob:
+                    bad.append((prob[0], prob[1], card,
+                                {'tree': tree, 'spelling': sp.as_dict(),
+                                 'form': form}))
     return evals, nontriv, bad, samples
 
 
